@@ -18,6 +18,18 @@ Zero weights: the weight domain of the profile / spectrum statistics includes we
       (ZeroGuard) with its unguarded variant refuted, zero-mask export (EX_*_var_zero) replayed through
       OnlineVariance (explicit partition) and through generate_profiles (the drawn list steered to the
       exported order), seeded random runs with zero weights validated by TLC.
+Unit of the weights (round 3): the ranks are handed the weights times a common factor WScale (spec constant; TLC:
+      every result equals the statistics of the UNSCALED samples for WScale = 1/1024 and 1024, WeightScaleLemma;
+      an absolute threshold in the "nothing weighed yet" test -- ZeroGuard = "tolerant" -- passes at WScale = 1 and
+      is refuted at 1/256).  Bindings: the exported vectors are also run with every weight multiplied by 2**e
+      (WEXPS: 2**-30 ~ 1e-9 ... 2**-100 ~ 1e-30, 2**40; a power of two, so the floats are the exported rationals
+      times the factor exactly) through all three paths; accumulators wcount / M2 are expected to carry the factor,
+      mean / variance / std / derived summaries not.  Event logs are written in units of the run's factor.  Zero
+      masks are also realised as weights of 2**-60 (mixed magnitudes: leading dead points of a nested-sampling run).
+Summary source / ranks that fail (round 3): the spec's Reorder step computes the weighted-mean summary
+      (SummarySource "gathered"; "local" refuted: SummaryMeanIsGlobal, NoRankFails).  A collective that cannot
+      complete because a rank raised or returned without taking part is a verdict (every_rank_completes), not a
+      machinery failure: the hub aborts the waiting ranks and the run is reported with what every rank did.
 """
 import math
 import os
@@ -42,7 +54,10 @@ MAX_SIZE = 6
 # worker side (runs in the forked rank processes only)
 # =============================================================================================
 _W = dict(installed=False, seq=0, events=None, log=False, nobj=0, proj={}, cur_i=-1, last_cv=None,
-          pv=None, opt=None, lin=None)
+          pv=None, opt=None, lin=None, wunit=1.0)
+WEXPS = (-30, -100, 40)          # weights are handed over times 2**e (quick and thorough)
+WEXPS_THOROUGH = (-12, -60, -200, 100)
+TINY = -60                       # a masked weight realised as k/4 * 2**TINY instead of exactly zero
 
 
 def _kind_and_value(x, pj):
@@ -113,10 +128,11 @@ def _install():
         if pj is not None and _W['log']:
             idx, a, b = pj
             u = (float(np.asarray(value)[idx]) - b) / a
-            wq, wx = _wpair(weight)
+            un = _W['wunit']             # the log is written in units of the run's weight factor (a power of two)
+            wq, wx = _wpair(float(weight) / un)
             _emit(dict(ev='U', i=int(_W['cur_i']), v=_qpair(u), w=wq, wx=wx, cnt=int(self.count),
-                       wc=_sc(self.wcount), mean=_sc((float(np.asarray(self.mean)[idx]) - b) / a),
-                       m2=_sc(float(np.asarray(self.M2)[idx]) / (a * a))))
+                       wc=_sc(float(self.wcount) / un), mean=_sc((float(np.asarray(self.mean)[idx]) - b) / a),
+                       m2=_sc(float(np.asarray(self.M2)[idx]) / (a * a) / un)))
         return r
 
     def combine_variance(self, averages, variance, counts):
@@ -139,7 +155,7 @@ def _install():
             vk, vv = _kind_and_value(ex[0][0], (idx,))
             mk, mv = _kind_and_value(ex[1][0], (idx,))
             _emit(dict(ev='G', vk=vk, var=_sc(vv / (a * a)), mk=mk, mean=_sc((mv - b) / a) if mk == 'num' else 0,
-                       wc=_sc(ex[2][0]), cnt=int(ex[3][0])))
+                       wc=_sc(float(ex[2][0]) / _W['wunit']), cnt=int(ex[3][0])))
             rk = [_kind_and_value(x, (idx,))[0] for x in ex[0][1]]
             cv = _W['last_cv']
             if cv is None:
@@ -176,6 +192,7 @@ def _begin_case(case, rank, size):
     _W['nobj'] = 0
     _W['cur_i'] = -1
     _W['last_cv'] = None
+    _W['wunit'] = math.ldexp(1.0, int(case.get('wexp', 0)))
     return dict(tid=case['tid'], nr=size, n=len(case['v']), rank=rank, S=S, tol=TOL, rr=int(case.get('rr', 0)))
 
 
@@ -197,7 +214,9 @@ def _run_ov(rank, size, case):
     for i in case['mine'][rank]:
         _W['cur_i'] = i
         u = float(Fraction(*case['v'][i]))
-        w = float(Fraction(*case['w'][i]))
+        w = math.ldexp(float(Fraction(*case['w'][i])), int(case.get('wexp', 0)))
+        if w == 0 and case.get('tiny'):
+            w = math.ldexp((1 + i % 4) / 4.0, int(case['tiny']) + int(case.get('wexp', 0)))
         x = np.array([a * u + b for a, b in zip(CHAN_A, CHAN_B)])
         ov.update(x, weight=np.float64(w) if npw else w)
     acc = dict(count=float(ov.count), wcount=float(ov.wcount), mean=_tolist(ov.mean), M2=_tolist(ov.M2))
@@ -314,7 +333,7 @@ def _run_prof(rank, size, case):
     common = _begin_case(case, rank, size)
     _W['proj'] = {0: ((0,), TA, T0)}          # the first OnlineVariance of compute_error: temperature profile
     us = [float(Fraction(*q)) for q in case['v']]
-    ws = [float(Fraction(*q)) for q in case['w']]
+    ws = [math.ldexp(float(Fraction(*q)), int(case.get('wexp', 0))) for q in case['w']]
     opt.S = np.array([_params(u, i, names, modes) for i, u in enumerate(us)], dtype=float).reshape(len(us), len(names))
     opt.W = np.array(ws, dtype=float)              # numpy float64 weights, exact zeros included, as a sampler returns
     if case.get('steer') and len(us) > 0:
@@ -349,8 +368,10 @@ def _run_prof(rank, size, case):
 def worker_main(rank, size, batch):
     """Runs in a rank process.  A case that raises ends the batch (the ranks must stay in step)."""
     _install()
+    import mpi4py
     res = []
-    for case in batch:
+    for k, case in enumerate(batch):
+        mpi4py.MPI.COMM_WORLD.epoch = k
         try:
             if case['kind'] == 'ov':
                 res.append(('ok', _run_ov(rank, size, case)))
@@ -390,11 +411,16 @@ class Runner(object):
         return g
 
     def run_batch(self, size, cases):
-        """-> list of per-case results: ('ok', [per-rank dict]) | ('raised', text) | ('failed', text)."""
+        """-> list of per-case results: ('ok', [per-rank dict]) | ('raised', text) | ('hung', text) | ('failed', text).
+        'raised': a rank raised; 'hung': besides, ranks were left waiting in a collective that could not complete
+        (aborted by the hub; a real MPI run hangs) -- both are outcomes of the code under test.  'failed': the
+        simulation itself broke down (timeout, dead process)."""
         if not cases:
             return []
         try:
-            per_rank = self.group(size).run(cases)
+            g = self.group(size)
+            per_rank = g.run(cases)
+            aborts = list(g.last_aborts)
         except fx_mpi.GroupFailure as e:
             if len(cases) == 1:
                 return [('failed', str(e))]
@@ -414,7 +440,7 @@ class Runner(object):
             if all(r[0] == 'ok' for r in rs):
                 out.append(('ok', [r[1] for r in rs]))
             else:
-                out.append(('raised', next(r[1] for r in rs if r[0] != 'ok')))
+                out.append(describe_failure(rs, [a for a in aborts if k in a['epoch']]))
                 if k + 1 < len(cases):
                     self.close(size)
                     for c2 in cases[k + 1:]:
@@ -428,6 +454,32 @@ class Runner(object):
                 self.collectives += g.collectives
                 g.close()
                 del self.groups[s]
+
+
+def describe_failure(rs, aborts):
+    """Outcome of a case in which not every rank returned a result."""
+    own, waited = [], []
+    for r, x in enumerate(rs):
+        if x[0] == 'ok':
+            continue
+        first = x[1].split('\n')[0]
+        if 'aborted by the hub' in first:
+            waited.append(r)
+        else:
+            own.append('rank %d raised %s' % (r, first[:160]))
+    okr = [r for r, x in enumerate(rs) if x[0] == 'ok']
+    text = '; '.join(own) if own else ''
+    if okr and (own or waited):
+        text += ('; ' if text else '') + 'ranks %s returned a result' % okr
+    if waited or aborts:
+        why = aborts[0]['why'] if aborts else 'unmatched collective'
+        text += ('; ' if text else '') + 'ranks %s were left waiting (a real MPI run hangs): %s' % (waited, why[:200])
+        return ('hung', text)
+    return ('raised', text)
+
+
+def fail_clause(res):
+    return 'every_rank_completes' if res[0] == 'hung' else 'no_exception'
 
 
 def xnum(x):
@@ -485,14 +537,24 @@ def processed_lists(per_rank, ws):
     return out
 
 
+def scale_tag(case):
+    e = int(case.get('wexp', 0))
+    return ':wscale=2^%d' % e if e else ''
+
+
 def rr_counts(n, size):
     return [len(range(r, n, size)) for r in range(size)]
 
 
-def case_from_vector(vec, tid, kind, rng, partition='vector'):
+def case_from_vector(vec, tid, kind, rng, partition='vector', wexp=0, tiny=0):
     nr, n = vec['nr'], vec['n']
     c = dict(kind=kind, tid=tid, v=[list(map(int, q)) for q in vec['v']], w=[list(map(int, q)) for q in vec['w']],
              nr=nr, log=True, npw=bool(tid % 2))
+    if wexp:
+        c['wexp'] = int(wexp)
+    if tiny:
+        c['tiny'] = int(tiny)
+        c['log'] = False          # a weight of 2**-60 is none of the weights the trace specification knows
     if kind == 'ov':
         if partition == 'vector':
             c['mine'] = [[i - 1 for i in lst] for lst in vec['mine']]
@@ -514,12 +576,17 @@ def judge_ov(ctx, vec, case, res):
     cls = 'ov:%s' % shape_class(counts)
     wsf = [frac(q) for q in case['w']]
     zc = zero_class([[wsf[i] for i in m] for m in case['mine']])
-    if zc:
+    if zc and case.get('tiny'):
+        cls += ':%s:tiny-for-zero' % zc           # the masked weights are 2**TINY * k/4 instead of exactly zero
+    elif zc:
         cls += ':%s:%s' % (zc, 'numpy-weights' if case.get('npw') else 'python-weights')
-        COVER.add(('ov', nr, zc, bool(case.get('npw'))))
+        if not case.get('wexp'):
+            COVER.add(('ov', nr, zc, bool(case.get('npw'))))
+    cls += scale_tag(case)
+    un = math.ldexp(1.0, int(case.get('wexp', 0)))      # wcount and M2 carry the unit of the weights, nothing else does
     info = dict(case, vector=dict(mean=vec['mean'], var=vec['var']))
     if res[0] != 'ok':
-        ctx.verdict('no_exception', False, cls=cls, detail=res[1][-400:], vector=info)
+        ctx.verdict(fail_clause(res), False, cls=cls, detail=res[1][-600:], vector=info)
         return
     ctx.verdict('no_exception', True, cls=cls, vector=info)
     evar, emean = xnum(vec['var']), xnum(vec['mean'])
@@ -528,14 +595,14 @@ def judge_ov(ctx, vec, case, res):
         if case['rr'] == 1:
             ea = vec['acc'][r]
             a = out['acc']
-            ok = a['count'] == ea['count'] and near(a['wcount'], frac(ea['wcount']))
-            det = 'rank %d count/wcount %r/%r expected %r/%r' % (r, a['count'], a['wcount'], ea['count'], float(frac(ea['wcount'])))
+            ok = a['count'] == ea['count'] and near(a['wcount'], float(frac(ea['wcount'])) * un, un)
+            det = 'rank %d count/wcount %r/%r expected %r/%r' % (r, a['count'], a['wcount'], ea['count'], float(frac(ea['wcount'])) * un)
             weighed = frac(ea['wcount']) != 0       # only zero weights so far: mean and M2 are placeholders nobody reads
             if ok and ea['count'] > 0:
                 for ch, (ca, cb) in enumerate(zip(CHAN_A, CHAN_B)):
                     em = ca * float(frac(ea['mean'])) + cb
-                    e2 = ca * ca * float(frac(ea['M2']))
-                    if weighed and not (near(a['mean'][ch], em, 1.0) and near(a['M2'][ch], e2, 1.0)):
+                    e2 = ca * ca * float(frac(ea['M2'])) * un
+                    if weighed and not (near(a['mean'][ch], em, 1.0) and near(a['M2'][ch], e2, un)):
                         ok = False
                         det = 'rank %d channel %d mean/M2 %r/%r expected %r/%r' % (r, ch, a['mean'][ch], a['M2'][ch], em, e2)
             elif ok and a['mean'] is not None:
@@ -573,11 +640,13 @@ def judge_prof(ctx, vec, case, res, ref):
         # classified by the order the ranks really processed the samples in (logged update events)
         zc = (zero_class(processed_lists(res[1], ws)) if res[0] == 'ok' else '') or 'zero-weight-unclassified'
         cls += ':%s:numpy-weights' % zc
-        COVER.add(('profiles', nr, zc, True))
-    dcls = 'derived:%s:%s' % ('tied-weights' if ties else 'distinct-weights', 'one-rank' if nr == 1 else 'several-ranks')
+        if not case.get('wexp'):
+            COVER.add(('profiles', nr, zc, True))
+    cls += scale_tag(case)
+    dcls = 'derived:%s:%s%s' % ('tied-weights' if ties else 'distinct-weights', 'one-rank' if nr == 1 else 'several-ranks', scale_tag(case))
     info = dict(case, vector=dict(mean=vec.get('mean'), var=vec.get('var')))
     if res[0] != 'ok':
-        ctx.verdict('no_exception', False, cls=cls if case.get('profiles', True) else dcls, detail=res[1][-400:], vector=info)
+        ctx.verdict(fail_clause(res), False, cls=cls if case.get('profiles', True) else dcls, detail=res[1][-600:], vector=info)
         return
     ctx.verdict('no_exception', True, cls=cls, vector=info)
     for r, out in enumerate(res[1]):
@@ -634,6 +703,9 @@ def random_case(rng, tid):
         w[rng.randrange(n)] = Fraction(rng.randint(1, 4), 4)
     w = [list(_qp(x)) for x in w]
     c = dict(kind='ov', tid=tid, v=v, w=w, nr=nr, log=True, npw=bool(rng.getrandbits(1)))
+    e = rng.choice((0, 0) + WEXPS)               # unit of the weights (the log is written in that unit)
+    if e:
+        c['wexp'] = e
     mode = rng.random()
     if mode < 0.5:
         c['mine'] = [list(range(r, n, nr)) for r in range(nr)]
@@ -688,6 +760,7 @@ def validate_events(ctx, runs, label):
             per_rank = pr_by_tid.get(tid, [])
             cls += ':%s:%s' % (zero_class(processed_lists(per_rank, wsf)) or 'zero-weight-unclassified',
                                'numpy-weights' if (case['kind'] != 'ov' or case.get('npw')) else 'python-weights')
+        cls += scale_tag(case)
         ctx.verdict('trace_' + (b['why'] if b else 'accepted'), b is None, cls=cls,
                     detail='TLC rejected event %s of rank %s (line %s): %s; n=%d nr=%d per-rank counts %s' %
                            (b['ev'], b['rank'], b['l'], b['why'], len(case['v']), case['nr'], counts) if b else '',
@@ -800,14 +873,19 @@ def run(ctx):
         tier=ctx.tier,
         exhaustive='ranks 1..4, up to %d samples, values/weights from small sets: every interleaving of Update/Gather/Combine '
                    '(round-robin split) and every partition (combine step alone), weights that are exactly zero at every position '
-                   'included; derived traces with zero and tied weights' % (4 if q else 5),
+                   'included; derived traces with zero and tied weights; weights handed over times 1/1024 (and 1024, thorough): '
+                   'results equal the statistics of the unscaled samples' % (4 if q else 5),
         simulated_runs='rank counts 1..6 (one process per rank, all exchanges pickled), 0..12 samples, weights k/4, k = 0 included '
-                       '(numpy float64 and python zeros; first sample of a rank, every sample of a rank, all but one)')
+                       '(numpy float64 and python zeros; first sample of a rank, every sample of a rank, all but one); '
+                       'every weight times 2**e, e in %s; masked weights as 2**%d instead of zero' %
+                       (list(WEXPS if q else WEXPS + WEXPS_THOROUGH), TINY))
     ctx.assumptions = [
         'the mpi4py double reproduces the semantics of the pickle-based collectives (allgather, bcast, allreduce folding with + in rank order)',
         'TLC + CommunityModules Json/IOUtils',
         'the fixture forward model is affine in the sample value for every observed output (checked at start-up in each worker)',
         'quantile summaries of derived parameters are compared with the one-rank run of the same code; traces, means, variances with the specification',
+        'independence of the unit of the weights is verified by TLC for the factors 1/1024 and 1024 (32-bit rationals) and applied by the '
+        'bindings at 2**-200..2**100 (multiplying a float by a power of two is exact; 1e-300 stays negligible against every such weight)',
     ]
     t = ctx.tier
     # ---------------------------------------------------------------- design level + exports
@@ -851,7 +929,15 @@ def run(ctx):
     # the unguarded 0/0 of the update (zero weight met while nothing has been weighed): the result depends on
     # which sample happens to be the first one of a rank
     refute('refute-unguarded-zero-weight-sched', 'MC_ParallelStats_refute_zero_sched.cfg', 'ScheduleIndependent')
+    # unit of the weights: an absolute threshold in the "nothing weighed yet" test of the update passes with
+    # weights of ordinary size (tolerant_unit, thorough) and is refuted as soon as the weights are small as a whole
+    refute('refute-absolute-threshold-on-weight-sum', 'MC_ParallelStats_refute_scale.cfg', 'VarianceIsTwoPass')
+    # the weighted-mean summary of a derived parameter taken from the lists the rank filled itself
+    refute('refute-summary-from-local-lists', 'MC_ParallelStats_refute_localmean.cfg', 'SummaryMeanIsGlobal')
     if not q:
+        refute('refute-absolute-threshold-sched', 'MC_ParallelStats_refute_scale_sched.cfg', 'ScheduleIndependent')
+        refute('refute-local-summary-rank-fails', 'MC_ParallelStats_refute_norank.cfg', 'NoRankFails')
+        deep('absolute-threshold-passes-at-unit-scale', 'MC_ParallelStats_tolerant_unit.cfg', 1 + 3 + 2 * 3)
         refute('refute-unguarded-zero-weight', 'MC_ParallelStats_refute_zero.cfg', 'VarianceIsTwoPass')
         refute('refute-identity-nan-test-sched', 'MC_ParallelStats_refute_sched.cfg', 'ScheduleIndependent')
     results = tlc_parallel(jobs, par=5 if q else 3, big_workers=4 if q else 8)
@@ -914,9 +1000,27 @@ def execute(ctx, runner, rng, vv, tv, q):
         tid[0] += 1
         return tid[0]
     traced = []                      # (case, per-rank results) to be validated by TLC
+    import time
+    marks = [('start', time.time(), 0)]
+
+    def mark(name):
+        marks.append((name, time.time(), tid[0]))
     B = 40
     ZSHARE = 0.3 if q else 1.0       # share of the zero-mask runs whose event logs go to TLC
     ZPROF = 0.5 if q else 1.0        # share of the zero-mask vectors (3..6 ranks) run through generate_profiles
+    # unit of the weights: every weight of the vector times 2**e, e cycling through `exps`
+    exps = WEXPS if q else WEXPS + WEXPS_THOROUGH
+    SC_SMALL = 0.3 if q else 1.0     # share of the small exhaustive vectors (n <= 3) also run with scaled weights (OnlineVariance path)
+    SC_TRACE = 0.35 if q else 1.0    # share of the scaled runs whose event logs go to TLC
+    SC_PROF = 0.3 if q else 1.0      # share of the generate_profiles vectors also run with scaled weights
+    SC_DER = 0.5 if q else 1.0       # share of the generic derived-trace vectors also run with scaled weights
+    TINY_SHARE = 0.4 if q else 1.0   # share of the zero-mask vectors also run with 2**TINY instead of zero
+    nexp = [0]
+
+    def next_exp():
+        nexp[0] += 1
+        return exps[nexp[0] % len(exps)]
+    haszero = lambda v: any(frac(x) == 0 for x in v['w'])
     # -------- OnlineVariance path: every exported vector with its own partition, a share with random partitions
     by_nr = {}
     for v in vv:
@@ -928,6 +1032,11 @@ def execute(ctx, runner, rng, vv, tv, q):
             items.append((v, case_from_vector(v, next_tid(), 'ov', rng)))
             if nr > 1 and v['n'] >= 2 and rng.random() < (0.25 if q else 1.0):
                 items.append((v, case_from_vector(v, next_tid(), 'ov', rng, partition='random')))
+            if v['n'] >= 2 and (v['n'] >= 4 or haszero(v) or rng.random() < SC_SMALL):
+                part = 'random' if (nr > 1 and rng.random() < 0.25) else 'vector'
+                items.append((v, case_from_vector(v, next_tid(), 'ov', rng, partition=part, wexp=next_exp())))
+            if haszero(v) and rng.random() < TINY_SHARE:
+                items.append((v, case_from_vector(v, next_tid(), 'ov', rng, tiny=TINY)))
         for k in range(0, len(items), B):
             chunk = items[k:k + B]
             out = runner.run_batch(nr, [c for _, c in chunk])
@@ -936,12 +1045,14 @@ def execute(ctx, runner, rng, vv, tv, q):
                     raise Machinery('simulated run failed: ' + res[1][-600:])
                 judge_ov(ctx, v, c, res)
                 zero = any(x[0] == 0 for x in c['w'])
+                if not c['log'] or (c.get('wexp') and rng.random() >= SC_TRACE):
+                    continue
                 if res[0] == 'ok' and ((v['n'] >= 4 and (not zero or v['nr'] == 2 or rng.random() < ZSHARE)) or
                                        rng.random() < n_trace_budget / float(len(vv) * 1.3)):
                     traced.append((c, res[1]))
+    mark('OnlineVariance')
     ctx.add_sample(dict(binding='A/C', path='OnlineVariance', vector={k: vv[len(vv) // 2][k] for k in ('nr', 'n', 'v', 'w', 'mean', 'var')}))
     # -------- generate_profiles: generic vectors + a share of the small ones
-    haszero = lambda v: any(frac(x) == 0 for x in v['w'])
     # Zero-mask vectors: generate_profiles hands a zero weight over as 1e-300, so a zero-weight sample leaves a
     # rounding residue (1e-16 relative, of either sign) in the streaming M2.  That is immaterial unless the exact
     # variance is 0 (all samples of positive weight equal, e.g. all weights but one are zero), where the square
@@ -966,6 +1077,9 @@ def execute(ctx, runner, rng, vv, tv, q):
     for nr in sorted(by_nr):
         items = [(v, dict(case_from_vector(v, next_tid(), 'prof', rng), profiles=True, derived=False, steer=haszero(v)))
                  for v in by_nr[nr]]
+        items += [(v, dict(case_from_vector(v, next_tid(), 'prof', rng, wexp=next_exp()), profiles=True, derived=False,
+                           steer=haszero(v)))
+                  for v in by_nr[nr] if v['n'] >= 3 and rng.random() < SC_PROF]
         for k in range(0, len(items), B):
             chunk = items[k:k + B]
             out = runner.run_batch(nr, [c for _, c in chunk])
@@ -973,18 +1087,31 @@ def execute(ctx, runner, rng, vv, tv, q):
                 if res[0] == 'failed':
                     raise Machinery('simulated run failed: ' + res[1][-600:])
                 judge_prof(ctx, v, c, res, None)
-                if res[0] == 'ok':
+                if res[0] == 'ok' and (not c.get('wexp') or rng.random() < SC_TRACE):
                     traced.append((c, res[1]))
+    mark('generate_profiles')
     # -------- compute_derived_trace: one-rank reference first, then the same samples on 2..6 ranks
     dv = [v for v in tv if v['n'] >= 1 and frac(v['wsum']) > 0]
     dv = [v for v in dv if v['n'] >= 4 or rng.random() < (0.25 if q else 1.0)]
-    key = lambda v: repr((v['v'], v['w']))
+    # (vector, exponent of the weight unit): the generic vectors also with scaled weights, the same exponent for
+    # every rank count of one sample set; the one-rank reference is run in the same unit
+    expof = {}
+    dvx = []
+    for v in dv:
+        dvx.append((v, 0))
+        if v['n'] >= 4:
+            k0 = repr((v['v'], v['w']))
+            if k0 not in expof:
+                expof[k0] = next_exp() if rng.random() < SC_DER else 0
+            if expof[k0]:
+                dvx.append((v, expof[k0]))
+    key = lambda v, e=0: repr((v['v'], v['w'], e))
     refs = {}
     ones = {}
-    for v in dv:
-        ones.setdefault(key(v), v)
-    items = [(v, dict(case_from_vector(dict(v, nr=1), next_tid(), 'prof', rng), profiles=False, derived=True, log=False))
-             for v in ones.values()]
+    for v, e in dvx:
+        ones.setdefault(key(v, e), (v, e))
+    items = [(v, dict(case_from_vector(dict(v, nr=1), next_tid(), 'prof', rng, wexp=e), profiles=False, derived=True, log=False))
+             for v, e in ones.values()]
     for k in range(0, len(items), B):
         chunk = items[k:k + B]
         out = runner.run_batch(1, [c for _, c in chunk])
@@ -993,20 +1120,22 @@ def execute(ctx, runner, rng, vv, tv, q):
                 raise Machinery('simulated run failed: ' + res[1][-600:])
             judge_prof(ctx, dict(v, nr=1), c, res, None)
             if res[0] == 'ok':
-                refs[key(v)] = res[1][0]
+                refs[key(v, c.get('wexp', 0))] = res[1][0]
     by_nr = {}
-    for v in dv:
+    for v, e in dvx:
         if v['nr'] > 1:
-            by_nr.setdefault(v['nr'], []).append(v)
+            by_nr.setdefault(v['nr'], []).append((v, e))
     for nr in sorted(by_nr):
-        items = [(v, dict(case_from_vector(v, next_tid(), 'prof', rng), profiles=False, derived=True, log=False)) for v in by_nr[nr]]
+        items = [(v, dict(case_from_vector(v, next_tid(), 'prof', rng, wexp=e), profiles=False, derived=True, log=False))
+                 for v, e in by_nr[nr]]
         for k in range(0, len(items), B):
             chunk = items[k:k + B]
             out = runner.run_batch(nr, [c for _, c in chunk])
             for (v, c), res in zip(chunk, out):
                 if res[0] == 'failed':
                     raise Machinery('simulated run failed: ' + res[1][-600:])
-                judge_prof(ctx, v, c, res, refs.get(key(v)))
+                judge_prof(ctx, v, c, res, refs.get(key(v, c.get('wexp', 0))))
+    mark('compute_derived_trace')
     ctx.add_sample(dict(binding='A/C', path='compute_derived_trace', vector={k: dv[len(dv) // 2][k] for k in ('nr', 'n', 'v', 'w', 'mean')}))
     # -------- binding B: seeded random runs (TLC computes what they must give)
     nrand = 250 if q else 2500
@@ -1022,9 +1151,11 @@ def execute(ctx, runner, rng, vv, tv, q):
                 if res[0] == 'failed':
                     raise Machinery('simulated run failed: ' + res[1][-600:])
                 counts = [len(m) for m in c['mine']]
-                ctx.verdict('no_exception', res[0] == 'ok', cls='ov:%s' % shape_class(counts), detail=res[1][-400:] if res[0] != 'ok' else '', vector=c)
+                ctx.verdict('no_exception' if res[0] == 'ok' else fail_clause(res), res[0] == 'ok',
+                            cls='ov:%s%s' % (shape_class(counts), scale_tag(c)), detail=res[1][-600:] if res[0] != 'ok' else '', vector=c)
                 if res[0] == 'ok':
                     traced.append((c, res[1]))
+    mark('random')
     good, by_tid = [], {}
     CH = 700
     for k in range(0, len(traced), CH):
@@ -1034,7 +1165,10 @@ def execute(ctx, runner, rng, vv, tv, q):
     if not q or True:
         canary(ctx, by_tid, good)
     ctx.add_sample(dict(binding='B', trace_events=by_tid[good[0]][1][:4] if good else None))
+    mark('trace-validation')
     ctx.note('simulated runs: %d (TLC-validated event logs: %d)' % (tid[0], len(traced)))
+    ctx.note('phases (wall s / simulated runs): ' + ', '.join(
+        '%s %.1f/%d' % (b[0], b[1] - a[1], b[2] - a[2]) for a, b in zip(marks, marks[1:])))
 
 
 def replay(ctx, violations):
@@ -1050,7 +1184,7 @@ def replay(ctx, violations):
             if res[0] == 'failed':
                 raise Machinery('simulated run failed: ' + res[1][-600:])
             if res[0] != 'ok':
-                ctx.verdict('no_exception', False, cls=v.get('cls', ''), detail=res[1][-400:], vector=v['vector'])
+                ctx.verdict(fail_clause(res), False, cls=v.get('cls', ''), detail=res[1][-600:], vector=v['vector'])
                 continue
             if case.get('log'):
                 validate_events(ctx, [(case, res[1])], 'replay')
